@@ -3,6 +3,7 @@
 package zzsimrt
 
 import (
+	"context"
 	"sync"
 	"time"
 )
@@ -175,6 +176,32 @@ func OnceValues[T1, T2 any](f func() (T1, T2), site int) func() (T1, T2) {
 	}
 }
 
+// CallCancel / CallCancelCause wrap calls of context cancel functions. Cancelling closes the
+// context's Done channel inside package context, out of the monitor's sight: whoever then
+// wakes from <-ctx.Done() is ordered after the canceller in reality, so the canceller
+// releases into a run-wide "external" clock that every channel receive acquires. This
+// claims more order than there is (any receive after any cancel), which can hide a race
+// and cannot invent one. On the pinned tree no context cancel function is called by the
+// instrumented packages, so the clock stays empty there.
+func CallCancel(f context.CancelFunc, site int) {
+	externRelease(site)
+	f()
+}
+
+func CallCancelCause(f context.CancelCauseFunc, cause error, site int) {
+	externRelease(site)
+	f(cause)
+}
+
+func externRelease(site int) {
+	if s, t := simTask(); s != nil {
+		s.yield(site, false)
+		s.mu.Lock()
+		s.hb.release(t, &s.hb.extern)
+		s.mu.Unlock()
+	}
+}
+
 // PoolGet / PoolPut replace sync.Pool's methods inside a simulation. What a pool holds
 // belongs to the run that put it there: a timer or channel made in one synctest bubble must
 // never surface in the next run of the same process (the Go runtime kills the process for
@@ -343,6 +370,7 @@ func (s *Sim) chanSync(t *Task, c interface{}) {
 	s.mu.Lock()
 	vc := s.hb.ch(c)
 	s.hb.acquire(t, vc)
+	s.hb.acquire(t, &s.hb.extern) // closes done inside package context (see CallCancel)
 	s.hb.release(t, vc)
 	s.mu.Unlock()
 }
